@@ -389,6 +389,9 @@ def rand_weights(rng, n, kind=None):
     if kind == "huge":
         sc = F(10 ** rng.choice([10, 15]))
         return [sc * F(rng.randint(1, 12), rng.randint(1, 5)) for _ in range(n)]
+    if kind == "neg":
+        # all weights negative: the weight function has no zero, the curve is as well defined as with positive weights
+        return [-F(rng.randint(1, 12), rng.randint(1, 5)) for _ in range(n)]
     if kind == "nearequal":
         # almost, but not exactly, equal weights (differences far below any absolute tolerance)
         return [F(1) + F(rng.randint(0, 9), 10 ** 12) for _ in range(n)]
